@@ -5,6 +5,7 @@ package harness
 // through the public helpers.
 
 import (
+	"bytes"
 	"context"
 	"encoding/json"
 	"fmt"
@@ -167,7 +168,46 @@ type World struct {
 	Order   []int // ids in ingest order
 	LastCfg EngCfg
 	Merges  int
-	cleanup []func()
+	// MergeLog holds the stored world as read back immediately before and
+	// after every Merge of the history (used by C01/C02 classification and by
+	// the C11/C12 oracles).
+	MergeLog []MergeObs
+	cleanup  []func()
+}
+
+type MergeObs struct {
+	Cfg      EngCfg
+	Before   []*FileInfo
+	After    []*FileInfo
+	Stats    *bs.MergeStats
+	Combined int // output blocks whose rows come from >=2 source blocks
+}
+
+func blockKey(b *BlockInfo) string { return fmt.Sprintf("%s@%d", b.File, b.Meta.RowDataOffset) }
+
+// countCombined: output blocks holding rows of >=2 distinct source blocks.
+func countCombined(before, after []*FileInfo) int {
+	src := map[int]string{}
+	for _, f := range before {
+		for _, b := range f.Blocks {
+			for _, id := range b.IDs {
+				src[id] = blockKey(b)
+			}
+		}
+	}
+	n := 0
+	for _, f := range after {
+		for _, b := range f.Blocks {
+			seen := map[string]bool{}
+			for _, id := range b.IDs {
+				seen[src[id]] = true
+			}
+			if len(seen) >= 2 {
+				n++
+			}
+		}
+	}
+	return n
 }
 
 func (w *World) Close() {
@@ -347,10 +387,22 @@ func RunHistory(h History) (*World, error) {
 				w.Close()
 				return nil, fmt.Errorf("step %d: %v", si, err)
 			}
-			if _, err := eng.Merge(ctx); err != nil {
+			before, err := ReadWorld(ds, ms)
+			if err != nil {
+				w.Close()
+				return nil, fmt.Errorf("step %d: world unreadable before merge: %v", si, err)
+			}
+			stats, err := eng.Merge(ctx)
+			if err != nil {
 				w.Close()
 				return nil, fmt.Errorf("step %d: merge failed on healthy stores: %v", si, err)
 			}
+			after, err := ReadWorld(ds, ms)
+			if err != nil {
+				w.Close()
+				return nil, fmt.Errorf("step %d: world unreadable after merge: %v", si, err)
+			}
+			w.MergeLog = append(w.MergeLog, MergeObs{Cfg: cfg, Before: before, After: after, Stats: stats, Combined: countCombined(before, after)})
 			w.Merges++
 		case "ext":
 			if err := settle(); err != nil {
@@ -434,16 +486,7 @@ func ReadWorld(ds bs.DataStore, ms bs.MetaStore) ([]*FileInfo, error) {
 				}
 				rb := append([]byte(nil), row...)
 				bi.Rows = append(bi.Rows, rb)
-				var m map[string]any
-				if err := json.Unmarshal(rb, &m); err == nil {
-					if id, ok := rowID(m); ok {
-						bi.IDs = append(bi.IDs, id)
-					} else {
-						bi.IDs = append(bi.IDs, -1)
-					}
-				} else {
-					bi.IDs = append(bi.IDs, -1)
-				}
+				bi.IDs = append(bi.IDs, idOfRowJSON(rb))
 			}
 			fi.Blocks = append(fi.Blocks, bi)
 		}
@@ -452,6 +495,56 @@ func ReadWorld(ds bs.DataStore, ms bs.MetaStore) ([]*FileInfo, error) {
 	}
 	sort.Slice(files, func(i, j int) bool { return files[i].Ptr < files[j].Ptr })
 	return files, nil
+}
+
+// idOfRowJSON finds the top-level "id" of a stored row by walking the token
+// stream (numbers are kept as literals, so rows holding numbers that float64
+// cannot represent, e.g. 1e400, still yield their id). -1 when absent.
+func idOfRowJSON(b []byte) int {
+	dec := json.NewDecoder(bytes.NewReader(b))
+	dec.UseNumber()
+	tok, err := dec.Token()
+	if d, ok := tok.(json.Delim); err != nil || !ok || d != '{' {
+		return -1
+	}
+	for dec.More() {
+		kt, err := dec.Token()
+		if err != nil {
+			return -1
+		}
+		key, _ := kt.(string)
+		// read the value: either a scalar token or a nested container to skip
+		vt, err := dec.Token()
+		if err != nil {
+			return -1
+		}
+		if d, ok := vt.(json.Delim); ok && (d == '{' || d == '[') {
+			depth := 1
+			for depth > 0 {
+				t2, err := dec.Token()
+				if err != nil {
+					return -1
+				}
+				if d2, ok := t2.(json.Delim); ok {
+					if d2 == '{' || d2 == '[' {
+						depth++
+					} else {
+						depth--
+					}
+				}
+			}
+			continue
+		}
+		if key == "id" {
+			if n, ok := vt.(json.Number); ok {
+				if i, err := n.Int64(); err == nil {
+					return int(i)
+				}
+			}
+			return -1
+		}
+	}
+	return -1
 }
 
 func readAllFile(ds bs.DataStore, ptr string) ([]byte, error) {
